@@ -170,7 +170,7 @@ Definition complete_upload (u : ustate) (s : state) (b k : list N) (id : N) (req
       | inl None => (u, s, (Some UInvalidPart, []))
       | inr ps =>
           let body := flat_map pt_body ps in
-          match put_object s b k body (up_meta mpu) with
+          match put_object s b k body (carry_meta s b k (up_meta mpu)) with
           | (s', (None, _)) => (remove_upload u b id, s', (None, complete_etag ps))
           | (s', (Some e, _)) => (u, s', (Some (UBackend e), []))
           end
@@ -193,7 +193,8 @@ Definition list_parts (u : ustate) (b k : list N) (id : N) (marker : Z) (limit :
   match get_upload u b k id with
   | None => inl (Some UNoSuchUpload)
   | Some mpu =>
-      let m := Nat.min (Z.to_nat marker) (length (up_parts mpu)) in
+      (* clamp before leaving Z: a marker of 2^40 must not become a unary numeral *)
+      let m := Z.to_nat (Z.min marker (Z.of_nat (length (up_parts mpu)))) in
       let all := parts_from m (skipn m (up_parts mpu)) in
       let lim := Z.to_nat limit in
       let shown := firstn lim all in
